@@ -1682,6 +1682,7 @@ def _do_bare_gate(wd, op, step):
 # ---------------------------------------------------------------------------------------------
 def run_case(seed, tier="quick", case=None, known=()):
     init_worker()
+    _S["guard"].reset()  # every history starts as a fresh process would
     rng = random.Random(seed)
     if case is None:
         w = gen_world(rng)
